@@ -12,7 +12,7 @@ TABLE = {
        "only_use_keys_in_metadata`, that an empty list raises before the "
        "verifier, that the issuer looked up is the element's own, the default "
        "and plumbing of the setting, and the use/entity filter of "
-       "MetaData.certs. No cryptography, no federation documents.",
+       "MetaData.certs. No cryptography, no federation documents. R6 evaluates the KeyDescriptor use filter of MetaData.certs in the three cases use absent / equal / different (abstract evaluation, nothing executed): a key of a different use never reaches the accept site, a key of the requested use does.",
   ref="Part 3 C03"),
  "C04": dict(
   tech="linear normal forms of comparisons (symbols bound by def-use, helper "
@@ -48,7 +48,7 @@ TABLE = {
        "that status_ok and the version assertion lie on every path to "
        "acceptance and dominate identity extraction, and that nothing on the "
        "way swallows the error. Behaviour on garbage version strings at run "
-       "time is not decided.",
+       "time is not decided. When STATUSCODE2EXCEPTION is computed rather than written as a literal its entries are read from the imported module (top level only) and compared with the samlp constants.",
   ref="Part 3 C06"),
  "C07": dict(
   tech="typestate over the CFG (normal and exceptional paths separately), "
@@ -60,7 +60,7 @@ TABLE = {
        "Policy.filter returns a filtered copy and always applies configured "
        "attribute_restrictions, and the error branch. Two genuine violations "
        "are recorded as known findings. Regex semantics and entity-category "
-       "contents are not decided.",
+       "contents are not decided. Policy.filter: the unfiltered copy is assigned only under `_ava is None` once a filter stage may have run.",
   ref="Part 3 C07"),
  "C09": dict(
   tech="derivation of returned destinations, equality-guard recognition, "
@@ -84,7 +84,7 @@ TABLE = {
        "and wrong-type rejection, Destination and IssueInstant gates, and "
        "accept=>verified with only_valid_cert unconstrained. Two genuine "
        "violations are recorded as known findings. Garbled encodings and "
-       "xmlsec1 are not decided.",
+       "xmlsec1 are not decided. Request._loads hands signature_check exactly the caller's must/only_valid_cert/origdoc on every path (origins, not text).",
   ref="Part 3 C10"),
 }
 
@@ -101,7 +101,7 @@ TABLE.update({
        "the opt-in pyXMLSecurity backend; all 1143 generated *_from_string "
        "functions go through create_class_from_xml_string; no parse function "
        "swallows a parser error. What libxml2 inside xmlsec1 does and parser "
-       "behaviour on concrete hostile documents are not decided.",
+       "behaviour on concrete hostile documents are not decided. R6: no incremental parse (iterparse/pull parser) whose consuming loop can be left before the input is exhausted.",
   ref="Part 3 C11"),
  "C12": dict(
   tech="schema-table reflection (import of the schema modules in a child "
@@ -113,7 +113,7 @@ TABLE.update({
        "constructor chain assigns every member, that the module maps agree "
        "with the classes, and that the generic reader and writer in "
        "SamlBase/ExtensionContainer use the same six channels. Equality of "
-       "arbitrary instance trees and byte stability are not decided.",
+       "arbitrary instance trees and byte stability are not decided. Writer: a declared attribute is written whenever the member is not None (the only value guard).",
   ref="Part 3 C12"),
  "C13": dict(
   tech="schema-table reflection + exhaustive type-name/cardinality rules, "
@@ -164,7 +164,7 @@ TABLE.update({
        "unknown/unsupported/binding filter, entity isolation and key-use "
        "filter, and whether every caller acts on the signature verdict. "
        "Three genuine violations are recorded as known findings. Exactness "
-       "for arbitrary federation documents is not decided.",
+       "for arbitrary federation documents is not decided. M7 (generation side of the round trip): do_key_descriptor emits one KeyDescriptor per configured certificate under the use it is configured for, unconditionally within its loop.",
   ref="Part 3 C16"),
  "C17": dict(
   tech="statement-order rule in the common block, move-not-copy check, "
@@ -176,7 +176,7 @@ TABLE.update({
        "response, that decrypted assertions pass _assertion and signature "
        "checks, and whether load-time checks are repeated for decrypted "
        "assertions (one genuine violation recorded). Ciphertext contents and "
-       "key matching are not decided.",
+       "key matching are not decided. R7: a KeyDescriptor without use is returned for every requested use and the encryption lookups ask for use 'encryption'; R8: the key an assertion is encrypted for derives on every call from encrypt_cert or metadata.certs(sp_entity_id) only, never from state kept on the entity.",
   ref="Part 3 C17"),
  "C18": dict(
   tech="who-may-write ownership of the identifier map, pairing checks of "
@@ -199,7 +199,7 @@ TABLE.update({
        "code(name_id) of the method's own subject, that get() returns only "
        "after the expiry test and set()/get() agree on the stored tuple, that "
        "expired/empty sources cannot reach the merge, delete/reset shapes and "
-       "backend neutrality. Histories and shelve semantics are not decided.",
+       "backend neutrality. Histories and shelve semantics are not decided. reset() stores the empty, expired record on every normal path.",
   ref="Part 3 C19"),
  "C20": dict(
   tech="flag-sensitive shape rules on _run_xmlsec / parse_xmlsec_output / "
